@@ -50,6 +50,19 @@ macro_rules! dim {
             && ls(va.mul_element_wise(c(k))) == want(&|i| a[i] * k) && ls(va.div_element_wise(c(k))) == want(&|i| a[i] / k)
             && ls(va.rem_element_wise(c(k))) == want(&|i| a[i] % k),
             || format!("{}<{}> element-wise a={:?} b={:?} d={:?} k={}", stringify!($V), tn, &a[..$n], &b[..$n], &d[..$n], k));
+        // the in-place element-wise methods (vector and scalar right-hand side) change the receiver to the by-value result
+        ctx.ew.rec({ let mut m = va; m.add_assign_element_wise(vb); ls(m) == want(&|i| a[i] + b[i]) }
+            && { let mut m = va; m.sub_assign_element_wise(vb); ls(m) == want(&|i| a[i] - b[i]) }
+            && { let mut m = va; m.mul_assign_element_wise(vb); ls(m) == want(&|i| a[i] * b[i]) }
+            && { let mut m = va; m.div_assign_element_wise(vd); ls(m) == want(&|i| a[i] / d[i]) }
+            && { let mut m = va; m.rem_assign_element_wise(vd); ls(m) == want(&|i| a[i] % d[i]) }
+            && { let mut m = va; m.add_assign_element_wise(c(k)); ls(m) == want(&|i| a[i] + k) }
+            && { let mut m = vb; m.add_assign_element_wise(c(k)); m.sub_assign_element_wise(c(k)); ls(m) == want(&|i| b[i]) }
+            && { let mut m = va; m.mul_assign_element_wise(c(k)); ls(m) == want(&|i| a[i] * k) }
+            && { let mut m = va; m.div_assign_element_wise(c(k)); ls(m) == want(&|i| a[i] / k) }
+            && { let mut m = va; m.rem_assign_element_wise(c(k)); ls(m) == want(&|i| a[i] % k) },
+            || format!("{}<{}> in-place element-wise methods a={:?} b={:?} d={:?} k={}: e.g. add_assign_element_wise(k) gives {:?}", stringify!($V), tn, &a[..$n], &b[..$n], &d[..$n], k,
+                       { let mut m = va; m.add_assign_element_wise(c(k)); ls(m) }));
         let dot_w: i128 = idx.iter().map(|i| a[*i] * b[*i]).sum();
         ctx.dot.rec($V::dot(va, vb) as i128 == dot_w && $V::dot(vb, va) as i128 == dot_w
             && va.sum() as i128 == idx.iter().map(|i| a[*i]).sum::<i128>()
@@ -69,6 +82,12 @@ macro_rules! dim {
             && lp(pb.midpoint(pa)) == want(&|i| b[i] + (a[i] - b[i]) / 2)
             && lp($P::centroid(&[pa, pb, pa])) == want(&|i| (a[i] + b[i] + a[i]) / 3)
             && lp($P::centroid(&[pa])) == want(&|i| a[i])
+            && { let mut m = pa; m.mul_assign_element_wise(pb); lp(m) == want(&|i| a[i] * b[i]) }
+            && { let mut m = pa; m.add_assign_element_wise(c(k)); lp(m) == want(&|i| a[i] + k) }
+            && { let mut m = pa; m.mul_assign_element_wise(c(k)); lp(m) == want(&|i| a[i] * k) }
+            && { let mut m = pa; m.div_assign_element_wise(c(k)); lp(m) == want(&|i| a[i] / k) }
+            && { let mut m = pa; m.rem_assign_element_wise(c(k)); lp(m) == want(&|i| a[i] % k) }
+            && lp(pa.add_element_wise(c(k))) == want(&|i| a[i] + k) && lp(pa.div_element_wise(c(k))) == want(&|i| a[i] / k)
             && { let mut m = pa; m -= vb; lp(m) == want(&|i| a[i] - b[i]) }
             && { let mut m = pa; m += vb; lp(m) == want(&|i| a[i] + b[i]) },
             || format!("{}<{}> point ops a={:?} b={:?} k={} (p/k={:?})", stringify!($P), tn, &a[..$n], &b[..$n], k, lp(pa / c(k))));
@@ -109,6 +128,16 @@ macro_rules! int_type {
                     ctx.scal.rec(ls(va * c(k)) == w(&|i| a[i] * k) && ls(va / c(k)) == w(&|i| a[i] / k) && ls(va % c(k)) == w(&|i| a[i] % k)
                         && { let mut m = va; m /= c(k); ls(m) == w(&|i| a[i] / k) },
                         || format!("Vector4<{}> scalar mul/div/rem v={:?} s={} (v/s={:?})", tn, a, k, ls(va / c(k))));
+                    let vd = Vector4::new(c(d[0]), c(d[1]), c(d[2]), c(d[3]));
+                    ctx.ew.rec(ls(va.mul_element_wise(vb)) == w(&|i| a[i] * b[i]) && ls(va.div_element_wise(vd)) == w(&|i| a[i] / d[i])
+                        && ls(va.add_element_wise(c(k))) == w(&|i| a[i] + k) && ls(va.div_element_wise(c(k))) == w(&|i| a[i] / k)
+                        && { let mut m = va; m.add_assign_element_wise(c(k)); ls(m) == w(&|i| a[i] + k) }
+                        && { let mut m = va; m.mul_assign_element_wise(c(k)); ls(m) == w(&|i| a[i] * k) }
+                        && { let mut m = va; m.div_assign_element_wise(c(k)); ls(m) == w(&|i| a[i] / k) }
+                        && { let mut m = va; m.rem_assign_element_wise(c(k)); ls(m) == w(&|i| a[i] % k) }
+                        && { let mut m = va; m.mul_assign_element_wise(vb); ls(m) == w(&|i| a[i] * b[i]) }
+                        && { let mut m = va; m.div_assign_element_wise(vd); ls(m) == w(&|i| a[i] / d[i]) },
+                        || format!("Vector4<{}> element-wise (by value / in place) a={:?} b={:?} d={:?} k={}", tn, a, b, d, k));
                     let dot_w: i128 = (0..4).map(|i| a[i] * b[i]).sum();
                     ctx.dot.rec(va.dot(vb) as i128 == dot_w && va.sum() as i128 == a.iter().sum::<i128>() && va.product() as i128 == a.iter().product::<i128>(),
                         || format!("Vector4<{}> dot/sum/product a={:?} b={:?}", tn, a, b));
